@@ -52,6 +52,11 @@ def cases(tier):
     ma = f"Ma {H} IMPORTS Dd FROM Mb; {' '.join(M2A)} END"
     mb = f"Mb DEFINITIONS IMPLICIT TAGS EXTENSIBILITY IMPLIED ::= BEGIN {' '.join(M2B)} END"
     out.append(("sources permuted", [[ma, mb], [mb, ma]]))
+    # 3b. two modules carrying the SAME module name (two editions) with different tag defaults and disjoint definitions
+    e1 = f"Ed DEFINITIONS IMPLICIT TAGS ::= BEGIN Alpha ::= SEQUENCE {{ a [1] INTEGER (0..{P1}), b [2] BOOLEAN }} END"
+    e2 = f"Ed DEFINITIONS EXPLICIT TAGS ::= BEGIN Beta ::= SEQUENCE {{ c [1] INTEGER (0..{P2}), d [2] BOOLEAN }} END"
+    out.append(("same module name twice, sources permuted", [[e1, e2], [e2, e1]]))
+    out.append(("same module name twice, inside one source", [[e1 + "\n" + e2], [e2 + "\n" + e1]]))
     # 4. history: the same compilation before and after a different one
     other = f"Zz DEFINITIONS EXPLICIT TAGS EXTENSIBILITY IMPLIED ::= BEGIN Qq ::= SEQUENCE {{ q [3] IA5String (FROM (\"a\"..\"f\")), ... }} rr INTEGER ::= {P1} END"
     first = [f"M {H} {' '.join(base)} END"]
